@@ -22,12 +22,131 @@ package registration
 //@ func registration.validateFetchRequestCommon
 //@   nopanic[C03,C14]
 //@   ensures[C03 reject] err != nil ==> ret == nil
-//@   ensures[C03 valid] err == nil ==> ret != nil && fresh(ret) && req != nil && !IsNil(storage)
+//@   ensures[C03 valid] err == nil ==> ret != nil && fresh(ret) && req != nil && !IsNil(storage) && !opts(opt).Err
 //@   |   && validReq(ret, req, opts(opt).WithNotBeforeClockSkew, opts(opt).WithNotAfterClockSkew, now(0))
 
-// ---------------------------------------------------------------- FetchNodeCredentials (C01, C13, C14; extended below)
+// ---------------------------------------------------------------- authorize.go (C01, C04, C13)
+//
+// Within these contracts k is the key id of the request's certificate key.
+// unchangedNode(id): the stored node record under id is what it was at entry.
+//@ pred unchangedNode(id) := StHas("nodeinfo", id) == old(StHas("nodeinfo", id)) && StGet("nodeinfo", id) == old(StGet("nodeinfo", id))
+//@ pred unchangedToken(id) := StHas("token", id) == old(StHas("token", id)) && StGet("token", id) == old(StGet("token", id))
+
+// created(r, i, st): r is a record newly built for request info i with state st
+//@ pred createdFor(r, i, st) := r.Id == keyId(i.CertificatePublicKeyPkix)
+//@   | && bytes(r.CertificatePublicKeyPkix) == bytes(i.CertificatePublicKeyPkix) && r.CertificatePublicKeyType == i.CertificatePublicKeyType
+//@   | && bytes(r.EncryptionPublicKeyBytes) == bytes(i.EncryptionPublicKeyBytes) && r.EncryptionPublicKeyType == i.EncryptionPublicKeyType
+//@   | && bytes(r.RegistrationNonce) == bytes(i.Nonce) && r.State == st
+//@   | && len(r.ServerEncryptionPrivateKeyBytes) == 32 && r.ServerEncryptionPrivateKeyType == KEYTYPE_X25519 && len(r.CertificateBundles) == 2
+
+//@ func registration.authorizeNodeCommon
+//@   let k = keyId(reqInfo.CertificatePublicKeyPkix)
+//@   requires reqInfo != nil
+//@   nopanic[C14]
+//@   ensures[* failclosed] err != nil ==> ret == nil
+//@   ensures[C13,C04,C01,* result] err == nil ==> ret != nil && ret.Id == k && (
+//@   |      (fresh(ret) && createdFor(ret, reqInfo, opts(opt).WithState)
+//@   |         && (!opts(opt).WithSkipStorage ==> StHas("nodeinfo", k) && storedNode(StGet("nodeinfo", k), ret)))
+//@   |   || (!opts(opt).WithSkipStorage && unchangedNode(k) && StHas("nodeinfo", k) && loadedFrom(ret, StGet("nodeinfo", k))))
+//@   ensures[C13,* failed] err != nil ==> unchangedNode(k)
+//@   ensures[C13,* others] forall id String :: id != k ==> unchangedNode(id)
+//@   ensures[* skipped] opts(opt).WithSkipStorage ==> unchangedNode(k)
+//@   modifies StNodeInfo
+//@   loop 0 unroll 2
+
+// ---------------------------------------------------------------- register_server_led.go (C06, C13, C15)
+//
+// tokenId(h, n): storage id of the activation token with HMAC key h and nonce n.
+// tokenTime(id, w): creation instant recorded for the stored token id - taken from the
+// sealed value when the record is sealed (so editing the clear field cannot extend it).
+//@ pred tokenTimeClear(id) := unMts(bytes(old(StGet("token", id)).CreationTimeMarshaled))
+
+//@ func registration.validateServerLedActivationToken
+//@   let id = b58(hmacSum(tokenNonce.HmacKeyBytes, tokenNonce.Nonce))
+//@   let k = keyId(reqInfo.CertificatePublicKeyPkix)
+//@   requires[C15 capfull] cap(opt) == len(opt)
+//@   nopanic[C14]
+//@   ensures[* failclosed] err != nil ==> ret == nil
+//@   ensures[C06,C13,C01,* use] err == nil ==> reqInfo != nil && tokenNonce != nil && old(StHas("token", id)) && !StHas("token", id) && ret != nil && ret.Id == k
+//@   ensures[C06 unexpired] err == nil && old(StGet("token", id)).WrappingKeyId == "" ==>
+//@   |   tokenTimeClear(id) + opts(opt).WithMaximumServerLedActivationTokenLifetime >= now(0)
+//@   ensures[C06 unexpiredsealed] err == nil && old(StGet("token", id)).WrappingKeyId != "" ==> opts(opt).WithStorageWrapper != nil
+//@   |   && wOkS(opts(opt).WithStorageWrapper, blobCt(old(StGet("token", id)).CreationTimeMarshaled), id)
+//@   |   && unMts(wPtS(opts(opt).WithStorageWrapper, blobCt(old(StGet("token", id)).CreationTimeMarshaled), id))
+//@   |        + opts(opt).WithMaximumServerLedActivationTokenLifetime >= now(0)
+//@   ensures[C06 newkeyonly] reliable() && err == nil ==> !old(StHas("nodeinfo", k))
+//@   ensures[C06,C13,C01,* nocreate] err != nil ==> forall j String :: unchangedNode(j)
+//@   ensures[C13,* consumed] reqInfo != nil && tokenNonce != nil && !unchangedNode(k) ==> !StHas("token", id)
+//@   ensures[C13,* othernodes] forall j String :: reqInfo == nil || j != k ==> unchangedNode(j)
+//@   ensures[C13,* othertokens] forall j String :: tokenNonce == nil || j != id ==> unchangedToken(j)
+//@   modifies StToken, StNodeInfo, nosharedappend
+
+//@ func registration.CreateServerLedActivationToken
+//@   nopanic[C14]
+//@   ensures[C13,C06 failclosed] err != nil ==> ret == "" && ret1 == ""
+//@   ensures[C13,C06 durable] err == nil && !opts(opt).WithSkipStorage ==> StHas("token", ret) && StGet("token", ret).Id == ret
+//@   |   && StGet("token", ret).State == opts(opt).WithState
+//@   ensures[C06 created] err == nil && !opts(opt).WithSkipStorage && opts(opt).WithStorageWrapper == nil ==>
+//@   |   unMts(bytes(StGet("token", ret).CreationTimeMarshaled)) == now(0)
+//@   ensures[C06 id] err == nil ==> exists h String, n String :: len(h) == 32 && len(n) == 32 && ret == b58(hmacSum(h, n))
+//@   ensures[C13 othertokens] forall j String :: j != ret ==> unchangedToken(j)
+//@   ensures[C13 failedclean] err != nil ==> forall j String :: StHas("token", j) == old(StHas("token", j))
+//@   modifies StToken
+
+// ---------------------------------------------------------------- AuthorizeNode / FetchNodeCredentials (C01, C03, C13, C15)
+//
+// The request's bundle is attacker-controlled; its decoded fields are written
+// decField("types.FetchNodeCredentialsInfo", F, req.Bundle).
+// sigOk(req, nb, na, t): what validation establishes (C03)
+//@ pred sigOk(req, nb, na, t) := len(req.Bundle) != 0 && len(req.BundleSignature) != 0
+//@   | && okPk(decField("types.FetchNodeCredentialsInfo", "CertificatePublicKeyPkix", req.Bundle))
+//@   | && isEd(decField("types.FetchNodeCredentialsInfo", "CertificatePublicKeyPkix", req.Bundle))
+//@   | && Verify(edpk(decField("types.FetchNodeCredentialsInfo", "CertificatePublicKeyPkix", req.Bundle)), req.Bundle, req.BundleSignature)
+//@   | && decField("types.FetchNodeCredentialsInfo", "NotBefore", req.Bundle) + nb <= t
+//@   | && t <= decField("types.FetchNodeCredentialsInfo", "NotAfter", req.Bundle) + na
+
+//@ func registration.AuthorizeNode
+//@   let certpub = decField("types.FetchNodeCredentialsInfo", "CertificatePublicKeyPkix", req.Bundle)
+//@   let nonce = decField("types.FetchNodeCredentialsInfo", "Nonce", req.Bundle)
+//@   let k = keyId(certpub)
+//@   nopanic[C14]
+//@   ensures[* failclosed] err != nil ==> ret == nil
+//@   ensures[C03,C01 gate] err == nil ==> req != nil && sigOk(req, opts(opt).WithNotBeforeClockSkew, opts(opt).WithNotAfterClockSkew, now(0))
+//@   ensures[C01,C10,* operator] err == nil ==> ret != nil && ret.Id == k && len(nonce) == 32
+//@   |   && (reliable() ==> !old(StHas("nodeinfo", k)) && bytes(ret.RegistrationNonce) == nonce && bytes(ret.CertificatePublicKeyPkix) == certpub)
+//@   ensures[C10,* state] err == nil ==> (fresh(ret) && ret.State == opts(opt).WithState) || (unchangedNode(k) && StHas("nodeinfo", k))
+//@   ensures[C13,C01,* failed] err != nil ==> forall j String :: unchangedNode(j)
+//@   ensures[C13,C01,* others] forall j String :: req == nil || j != k ==> unchangedNode(j)
+//@   ensures[C13,* durable] err == nil && !opts(opt).WithSkipStorage ==> StHas("nodeinfo", k)
+//@   |   && (storedNode(StGet("nodeinfo", k), ret) || loadedFrom(ret, StGet("nodeinfo", k)))
+//@   modifies StNodeInfo
 
 //@ func registration.FetchNodeCredentials
-//@   trusted -- placeholder until the C01 contract is in place
+//@   let certpub = decField("types.FetchNodeCredentialsInfo", "CertificatePublicKeyPkix", req.Bundle)
+//@   let nonce = decField("types.FetchNodeCredentialsInfo", "Nonce", req.Bundle)
+//@   let encpub = decField("types.FetchNodeCredentialsInfo", "EncryptionPublicKeyBytes", req.Bundle)
+//@   let wrapped = decField("types.FetchNodeCredentialsInfo", "WrappedRegistrationInfo", req.Bundle)
+//@   let k = keyId(certpub)
+//@   let tid = b58(hmacSum(decField("types.ServerLedActivationTokenNonce", "HmacKeyBytes", nonce), decField("types.ServerLedActivationTokenNonce", "Nonce", nonce)))
+//@   let wrapflow = len(wrapped) > 0 || len(req.RewrappedWrappingRegistrationFlowInfo) > 0
+//@   requires[C15 capfull] cap(opt) == len(opt)
+//@   nopanic[C14]
 //@   ensures[* failclosed] err != nil ==> ret == nil
-//@   modifies StNodeInfo, StToken
+//@   ensures[* nonnil] err == nil ==> ret != nil && req != nil
+//@   ensures[C03,C01 gate] err == nil ==> sigOk(req, opts(opt).WithNotBeforeClockSkew, opts(opt).WithNotAfterClockSkew, now(0))
+//@   ensures[C01 onlyif] reliable() && err == nil && ret.EncryptedNodeCredentials != nil ==>
+//@   |      (!wrapflow && len(nonce) == 32 && old(StHas("nodeinfo", k)) && bytes(old(StGet("nodeinfo", k)).RegistrationNonce) == nonce
+//@   |         && bytes(old(StGet("nodeinfo", k)).EncryptionPublicKeyBytes) == encpub
+//@   |         && bytes(old(StGet("nodeinfo", k)).CertificatePublicKeyPkix) == certpub)
+//@   |   || (!wrapflow && len(nonce) != 32 && old(StHas("token", tid)) && !StHas("token", tid) && !old(StHas("nodeinfo", k)))
+//@   |   || (len(req.RewrappedWrappingRegistrationFlowInfo) > 0 && old(StHas("nodeinfo", req.RewrappingKeyId)))
+//@   |   || (len(req.RewrappedWrappingRegistrationFlowInfo) == 0 && len(wrapped) > 0 && !IsNil(opts(opt).WithRegistrationWrapper)
+//@   |         && wOkS(opts(opt).WithRegistrationWrapper, blobCt(wrapped), "")
+//@   |         && decField("types.WrappingRegistrationFlowInfo", "Nonce", wPtS(opts(opt).WithRegistrationWrapper, blobCt(wrapped), "")) == nonce
+//@   |         && decField("types.WrappingRegistrationFlowInfo", "CertificatePublicKeyPkix", wPtS(opts(opt).WithRegistrationWrapper, blobCt(wrapped), "")) == certpub)
+//@   ensures[C01 nodeledreadonly] req != nil && !wrapflow && len(nonce) == 32 ==> forall j String :: unchangedNode(j)
+//@   ensures[C01,C13 unauthorized] err != nil || ret.EncryptedNodeCredentials == nil ==> wrapflow || len(nonce) != 32 || (forall j String :: unchangedNode(j))
+//@   ensures[C13,C01,* othernodes] forall j String :: req == nil || j != k ==> unchangedNode(j)
+//@   ensures[C13,* othertokens] forall j String :: req == nil || j != tid ==> unchangedToken(j)
+//@   ensures[C13,* consumed] req != nil && !wrapflow && !unchangedNode(k) ==> !StHas("token", tid)
+//@   modifies StNodeInfo, StToken, nosharedappend
